@@ -1,5 +1,6 @@
 import SMV.Props.RefineErase
 import SMV.Props.RefineAsync
+import SMV.Props.C15Valid
 /-
   Conversion erasure for `async: true` machines, under any suspension schedule, for arbitrary hooks.
 
@@ -143,5 +144,12 @@ theorem async_conversion_erasure (m : Machine) (hv : m.validate = .ok ()) (hv' :
     have := hall a ha
     cases a <;> exact this
   · exact (good_syncTwin m hd).mpr hgood
+
+/-- the same, with the twin's validity discharged (`C15.syncTwin_valid`) -/
+theorem async_conversion_erasure_v (m : Machine) (hv : m.validate = .ok ()) (hg : m.GraphBuilt) (hp : m.PascalInj)
+    (ops : List AOp) (hd : Hold2) (h : Hist) (hall : ∀ op ∈ ops, AOpOk m op) (hgood : Good m hd) :
+    obs (gRunA m hd ops h) =
+      obs (gRun (syncTwin m) hd.asDyn ((ops.map AOp.forget).filter GOp.isCall) h) :=
+  async_conversion_erasure m hv (syncTwin_valid m hv) hg hp ops hd h hall hgood
 
 end SMV.Refine
